@@ -6,6 +6,7 @@ mod c04;
 mod c05;
 mod c06;
 mod c07;
+mod c11;
 mod c12;
 mod c13;
 mod c14;
@@ -13,6 +14,7 @@ mod c17;
 mod c20;
 mod common;
 mod docgen;
+mod graph;
 mod tree;
 mod soup;
 
@@ -64,6 +66,7 @@ fn main() {
         "C05" => c05::run(&args),
         "C06" => c06::run(&args),
         "C07" => c07::run(&args),
+        "C11" => c11::run(&args),
         "C12" => c12::run(&args),
         "C13" => c13::run(&args),
         "C14" => c14::run_c14(&args),
